@@ -276,11 +276,12 @@ func runFaulty(c *vc.Case, st *c07Stream, sig canon.Signal, target int, faults [
 	case err != nil:
 		c.Count("outcome.error", 1)
 	case nMainIntact >= 1 && wantItems > 0:
-		if gotItems < wantItems || (nMainIntact == 1 && gotItems != wantItems) {
+		// k intact copies of the main record labelled as main: success must not discard any of them
+		if gotItems < nMainIntact*wantItems || (nMainIntact == 1 && gotItems != wantItems) {
 			c.Violation("faulty batch: success returned while the main record was discarded",
 				fmt.Sprintf("%s: main payload present and intact (%d rows) but %d items returned with err=nil", fdesc, wantItems, gotItems), w(target, "success-but-discarded"))
 		}
-		if gotItems == wantItems {
+		if gotItems == nMainIntact*wantItems {
 			c.Count("outcome.success_all_items", 1)
 		}
 	default:
